@@ -85,7 +85,8 @@ func (p *pooler) build(t reflect.Type, fuel int) []Gen {
 				add(i)
 			}
 		}
-		if p.sc.Text {
+		{
+			// extreme values: differences that overflow, widest printed forms
 			bits := uint(t.Bits())
 			min := int64(-1) << (bits - 1)
 			max := ^min
@@ -94,7 +95,7 @@ func (p *pooler) build(t reflect.Type, fuel int) []Gen {
 		}
 	case reflect.Uint, reflect.Uint8, reflect.Uint16, reflect.Uint32, reflect.Uint64, reflect.Uintptr:
 		add(uint8(0), uint8(1), uint8(2))
-		if p.sc.Text {
+		{
 			bits := uint(t.Bits())
 			max := ^uint64(0) >> (64 - bits)
 			gs = append(gs, func() reflect.Value { v := reflect.New(t).Elem(); v.SetUint(max); return v })
@@ -107,12 +108,14 @@ func (p *pooler) build(t reflect.Type, fuel int) []Gen {
 	case reflect.Complex64, reflect.Complex128:
 		add(complex(0, 0), complex(1, 0), complex(0, 1))
 	case reflect.String:
-		add("", "a", "b")
+		if p.sc.Text {
+			// the awkward ones first: nested pools only keep the head of a pool
+			add("", "a", "100%", "q\"\n`", "%d a%%b", "b", "\xff", "é€😀", "a\\b")
+		} else {
+			add("", "a", "b")
+		}
 		if p.sc.Wide {
 			add("Aa", "BB", "C#", "Ab", "BC", "aa", "bB")
-		}
-		if p.sc.Text {
-			add("q\"", "\n", "`", "\xff", "é€😀", "a\\b")
 		}
 	case reflect.Ptr:
 		gs = append(gs, func() reflect.Value { return reflect.Zero(t) })
@@ -254,6 +257,12 @@ func (p *pooler) build(t reflect.Type, fuel int) []Gen {
 				gs = append(gs, mk(ent{kp[1], v1}, ent{kp[0], v0})) // other insertion order
 				gs = append(gs, mk(ent{kp[0], v1}, ent{kp[1], v0}))
 				gs = append(gs, mk(ent{kp[0], v0}, ent{kp[1], v0}))
+				// two distinct keys whose 31-polynomial hashes collide (a sorted-key walk
+				// that orders keys by hash would leave their order to the map iteration)
+				if ck := collidingKeys(t.Key()); ck != nil {
+					gs = append(gs, mk(ent{ck[0], v0}, ent{ck[1], v1}))
+					gs = append(gs, mk(ent{ck[1], v1}, ent{ck[0], v0}))
+				}
 				if len(kp) >= 3 {
 					gs = append(gs, mk(ent{kp[0], v0}, ent{kp[2], v1}))
 					gs = append(gs, mk(ent{kp[2], v0}, ent{kp[1], v1}, ent{kp[0], v1}))
@@ -347,4 +356,80 @@ func (p *pooler) build(t reflect.Type, fuel int) []Gen {
 		panic("rt.Pool: unsupported kind " + t.Kind().String() + " in " + t.String())
 	}
 	return gs
+}
+
+// collidingKeys returns two distinct keys of type t that collide under a
+// 31-multiplier polynomial hash, for the key kinds where such a pair is known.
+func collidingKeys(t reflect.Type) []Gen {
+	switch {
+	case t.Kind() == reflect.String:
+		return []Gen{constGen(t, "Aa"), constGen(t, "BB")}
+	case t.Kind() == reflect.Array && t.Len() == 2 && t.Elem().Kind() == reflect.Int:
+		mk := func(a, b int64) Gen {
+			return func() reflect.Value {
+				v := reflect.New(t).Elem()
+				v.Index(0).SetInt(a)
+				v.Index(1).SetInt(b)
+				return v
+			}
+		}
+		return []Gen{mk(0, 31), mk(1, 0)}
+	}
+	return nil
+}
+
+// AliasVariants returns values that share memory with x: for every slice of
+// length >= 2 reachable without crossing a pointer or map, a shallow copy of x
+// in which that slice is resliced one element shorter (same backing array), and
+// x itself (identical addresses everywhere).
+func AliasVariants(x reflect.Value) []reflect.Value {
+	var out []reflect.Value
+	x = Addressable(x)
+	var paths [][]int
+	var walk func(v reflect.Value, path []int)
+	walk = func(v reflect.Value, path []int) {
+		v = access(v)
+		switch v.Kind() {
+		case reflect.Slice:
+			if v.Len() >= 2 {
+				paths = append(paths, append([]int(nil), path...))
+			}
+		case reflect.Struct:
+			for i := 0; i < v.NumField(); i++ {
+				walk(v.Field(i), append(path, i))
+			}
+		case reflect.Array:
+			for i := 0; i < v.Len(); i++ {
+				walk(v.Index(i), append(path, i))
+			}
+		}
+	}
+	walk(x, nil)
+	for _, p := range paths {
+		c := reflect.New(x.Type()).Elem()
+		c.Set(x) // shallow: shares every pointer target, backing array and map with x
+		cur := c
+		for _, i := range p {
+			cur = access(cur)
+			if cur.Kind() == reflect.Struct {
+				cur = cur.Field(i)
+			} else {
+				cur = cur.Index(i)
+			}
+		}
+		cur = access(cur)
+		cur.Set(cur.Slice(0, cur.Len()-1))
+		out = append(out, c)
+	}
+	// through one pointer at the root
+	if x.Kind() == reflect.Ptr && !x.IsNil() {
+		for _, v := range AliasVariants(x.Elem()) {
+			p := reflect.New(x.Type().Elem())
+			p.Elem().Set(v)
+			out = append(out, p)
+		}
+	}
+	same := reflect.New(x.Type()).Elem()
+	same.Set(x)
+	return append(out, same)
 }
